@@ -55,6 +55,7 @@ fn must_reject<X: Sx>(
 
 fn edits<X: Sx>(ctx: &Ctx, idx: u64, l: usize, d: Vec<usize>, all_flips: bool) {
     let mut r = ctx.rng("c04a", idx);
+    history_warmup::<X>(ctx, &mut r, l.min(40));
     let (sk, pk) = keypair::<X>(&mut r);
     let msgs = gen_messages(&mut r, l, 0);
     let hdr = Hdr::gen(&mut r, &[1, 20]);
@@ -73,7 +74,7 @@ fn edits<X: Sx>(ctx: &Ctx, idx: u64, l: usize, d: Vec<usize>, all_flips: bool) {
         return;
     }
     let h = Honest { pk, hdr, ph, msgs, d, proof: proof.to_bytes() };
-    let mask: String = (0..l).map(|i| if h.d.contains(&i) { '1' } else { '0' }).collect();
+    let mask: String = if l <= 16 { (0..l).map(|i| if h.d.contains(&i) { '1' } else { '0' }).collect() } else { format!("{:?}", h.d) };
     let base = format!("{}/L{}/D={}", name::<X>(), l, mask);
     let (ho, po) = (h.hdr.as_opt(), h.ph.as_opt());
     let rj = |kind: &str, pos: String, pk: &BBSplusPublicKey, proof: &[u8], dm: &[Vec<u8>], di: &[usize], hd: Option<&[u8]>, p: Option<&[u8]>| {
@@ -91,7 +92,9 @@ fn edits<X: Sx>(ctx: &Ctx, idx: u64, l: usize, d: Vec<usize>, all_flips: bool) {
     }
     // disclosed index moved to every other position, out of range, usize::MAX
     for k in 0..rr {
-        for to in (0..l + 2).chain([usize::MAX - 1, usize::MAX, 1 << 32]) {
+        let aliases = [h.d[k] + 64, h.d[k] + 128, h.d[k] + 256, h.d[k] + 65536, h.d[k].wrapping_sub(64), h.d[k].wrapping_sub(256), h.d[k] ^ 1];
+        let near: Vec<usize> = if l <= 12 { (0..l + 2).collect() } else { vec![0, 1, h.d[k].saturating_sub(1), h.d[k] + 1, l - 1, l, l + 1] };
+        for to in near.into_iter().chain(aliases).chain([usize::MAX - 1, usize::MAX, 1 << 32]) {
             if to == h.d[k] {
                 continue;
             }
@@ -118,7 +121,7 @@ fn edits<X: Sx>(ctx: &Ctx, idx: u64, l: usize, d: Vec<usize>, all_flips: bool) {
         di.remove(k);
         rj("disclosed-pair-dropped", format!("{k}"), &h.pk, &h.proof, &m, &di, ho, po);
     }
-    for j in (0..l).filter(|j| !h.d.contains(j)) {
+    for j in (0..l).filter(|j| !h.d.contains(j)).take(12) {
         let mut pairs: Vec<(usize, Vec<u8>)> = h.d.iter().copied().zip(dm.iter().cloned()).collect();
         pairs.push((j, h.msgs[j].clone()));
         pairs.sort();
@@ -206,6 +209,15 @@ fn edits<X: Sx>(ctx: &Ctx, idx: u64, l: usize, d: Vec<usize>, all_flips: bool) {
             rj("proof-extended-before-challenge", format!("{k}{name}"), &h.pk, &p, &dm, &h.d, ho, po);
         }
     }
+    // every whole-scalar truncation (down to the three points), then point-granular ones
+    let mut cut = 4 * 32;
+    while h.proof.len() > cut && h.proof.len() - cut >= 144 {
+        rj("proof-truncated", format!("{}", cut / 32), &h.pk, &h.proof[..h.proof.len() - cut], &dm, &h.d, ho, po);
+        cut += 32;
+    }
+    for keep in [0usize, 48, 96, 144] {
+        rj("proof-truncated-to", format!("{keep}"), &h.pk, &h.proof[..keep], &dm, &h.d, ho, po);
+    }
     // truncation by non-scalar amounts
     for cut in [1usize, 31, 33] {
         if h.proof.len() > 272 + cut {
@@ -249,6 +261,45 @@ impl Stmt {
     }
 }
 
+/// r * (h / 3) for the G1 cofactor h: multiplying any curve point by it lands in the 3-torsion
+const R_TIMES_H_DIV_3: &str = "08ab05f8bdd54cde190937e76bc3e447cc27c3d6fbd7063fcd104635a790520c0a395554e5c6aaaad955555555558e39";
+
+/// k * P for any point of the curve (also outside the prime-order subgroup), k big-endian
+fn mul_be(p: &G1Projective, k_be: &[u8]) -> G1Projective {
+    let mut acc = G1Projective::IDENTITY;
+    for byte in k_be {
+        for bit in (0..8).rev() {
+            acc = acc.double();
+            if byte >> bit & 1 == 1 {
+                acc += p;
+            }
+        }
+    }
+    acc
+}
+
+/// a point of order 3 on E(Fp): outside G1, not the identity, e(T, Q) = 1 for every Q
+pub fn order3_point(r: &mut impl RngCore) -> Option<G1Projective> {
+    use bls12_381_plus::G1Affine;
+    let k = hex::decode(R_TIMES_H_DIV_3).unwrap();
+    for _ in 0..200 {
+        let mut b = rand_bytes(r, 48);
+        b[0] = 0x80 | (b[0] & 0x3f) % 0x1a | (b[0] & 0x20);
+        let a: [u8; 48] = b.try_into().unwrap();
+        if let Some(p) = Option::<G1Affine>::from(G1Affine::from_compressed_unchecked(&a)) {
+            let t = mul_be(&G1Projective::from(p), &k);
+            if !bool::from(t.is_identity()) {
+                return Some(t);
+            }
+        }
+    }
+    None
+}
+
+fn mod3(s: &Scalar) -> u8 {
+    s.to_be_bytes().iter().fold(0u32, |acc, b| (acc * 256 + *b as u32) % 3) as u8
+}
+
 pub const FAMILIES: &[&str] = &[
     "identity-AbarBbar/D=Bv",
     "identity-AbarBbar/D=kBv",
@@ -259,6 +310,7 @@ pub const FAMILIES: &[&str] = &[
     "Abar=-Bbar",
     "identity-Abar-only",
     "identity-Bbar-only",
+    "small-order-AbarBbar",
 ];
 
 /// Build a forged proof from public data only.
@@ -276,6 +328,29 @@ pub fn forge(st: &Stmt, family: &str, r: &mut impl RngCore) -> rf::Proof {
         }
         t
     };
+    if family == "small-order-AbarBbar" {
+        // Abar, Bbar of order 3 (outside the prime-order subgroup): the pairing check holds for every key;
+        // Bbar*c only depends on c mod 3, which is guessed; T2 is made independent of c as before
+        if let Some(t) = order3_point(r) {
+            for attempt in 0..60u64 {
+                let k = rand_scalar(r);
+                let d = bv * k;
+                let r1_cap = rand_scalar(r);
+                let e_cap = rand_scalar(r);
+                let abar = t;
+                let bbar = if attempt % 2 == 0 { t } else { t.double() };
+                let guess = Scalar::from(attempt % 3);
+                let t1 = bbar * guess + abar * e_cap + d * r1_cap;
+                let t2 = sum_m(&m_cap);
+                let c = st.chal(&abar, &bbar, &d, &t1, &t2);
+                if mod3(&c) as u64 == attempt % 3 {
+                    return rf::Proof { Abar: abar, Bbar: bbar, D: d, e_cap, r1_cap, r3_cap: -c * k.invert().unwrap(), m_cap, c };
+                }
+            }
+        }
+        // could not build it: fall back to a harmless member of another family
+        return forge(st, "Abar=G/Bbar=G", r);
+    }
     match family {
         // T1 = D*r1^ ; T2 = sum H_j m^_j   (both independent of c) ; r3^ = -c/k
         "identity-AbarBbar/D=Bv" | "identity-AbarBbar/D=kBv" => {
@@ -411,7 +486,7 @@ fn forgeries<X: Sx>(ctx: &Ctx, idx: u64, u: usize, rcount: usize) {
                 cm.push(dm[k].clone());
             }
         }
-        for fam in &FAMILIES[..3] {
+        for fam in FAMILIES[..3].iter().chain(&FAMILIES[9..]) {
             let p = forge(&st, fam, &mut r);
             let case = format!("{}/blind-forgery/{}/U{}/R{}/Ls{}", name::<X>(), fam, u, rcount, ls);
             ctx.distinct(&case);
@@ -481,6 +556,17 @@ pub fn scenarios(ctx: &Ctx) -> Vec<Scenario> {
             v.push(scenario(format!("A/sha/L{l}/{k}"), move |c| edits::<Sha>(c, i, l, d1, all)));
             v.push(scenario(format!("A/shake/L{l}/{k}"), move |c| edits::<Shake>(c, i, l, d2, all)));
         }
+    }
+    // workload A on large message counts with disclosed positions deep in the vector
+    for (k, (l, d)) in [(70usize, vec![5usize, 64, 69]), (130, vec![0, 127, 128, 129]), (260, vec![255, 256, 259]), (33, vec![32])].into_iter().enumerate() {
+        if ctx.quick() && k >= 2 {
+            break;
+        }
+        let i = idx;
+        idx += 1;
+        let (d1, d2) = (d.clone(), d);
+        v.push(scenario(format!("A/sha/L{l}/deep"), move |c| edits::<Sha>(c, i, l, d1, false)));
+        v.push(scenario(format!("A/shake/L{l}/deep"), move |c| edits::<Shake>(c, i, l, d2, false)));
     }
     // workload B
     for u in 0..=3usize {
